@@ -663,7 +663,9 @@ def random_history(rng, max_leaves, ncalls):
     return {"n": n, "T": T, "calls": calls}
 
 
-# fixed corpus: the corners found while building (run first)
+# fixed corpus (run first, independent of VERIF_SEED): one minimal history per known mechanism — the defects repaired
+# in /repo (b65c364: falsy root, falsy leaf, IndexError escaping the rollback) and the seeded changes C35-a/-b/-c.
+# VERIF_CORPUS_ONLY=1 runs only this corpus.
 def corpus():
     full = lambda size: list(range(size))
     res = []
@@ -687,6 +689,29 @@ def corpus():
                 "calls": [{"prio": full(7), "hashes": [(0, g[0])], "leaves": []},
                           {"prio": [6, 5, 4, 3, 2, 1, 0], "hashes": [(2, g[2])], "leaves": [(0, "a0"), (1, "a1")]},
                           {"prio": full(7), "hashes": [(6, "a3")], "leaves": [(2, "a2")]}]})
+    # seeded C35-a (a pair that hashes to a parent "already held" is taken off the rollback list although that parent
+    # is itself a provisional value of the same batch): forged leaf pair + their pair hash as node 1; node 1 then
+    # fails against the root, the forged leaves must not survive; forged leaf again; genuine request
+    f3, f4 = "a1003", "a1004"
+    res.append({"n": 4, "T": ["a0", "a1", "a2", "a3"],
+                "calls": [{"prio": full(7), "hashes": [(0, g[0])], "leaves": []},
+                          {"prio": [6, 5, 4, 3, 2, 1, 0], "hashes": [(1, "P" + f3 + f4), (2, g[2]), (4, f4)], "leaves": [(0, f3)]},
+                          {"prio": full(7), "hashes": [], "leaves": [(0, f3)]},
+                          {"prio": full(7), "hashes": [(4, g[4]), (2, g[2])], "leaves": [(0, g[3])]}]})
+    # seeded C35-b (pair_hash cached under the key a+b): (genuine left || genuine right) cut at byte 0 and at byte 40,
+    # after the genuine tree was hashed in this process
+    g2 = genuine_terms(["a0", "a1"])
+    for b in (0, 40):
+        lt, rt = resplit_terms(g2, 1, b)
+        res.append({"n": 2, "T": ["a0", "a1"], "calls": [{"prio": full(3), "hashes": [(0, g2[0])], "leaves": []},
+                                                         {"prio": full(3), "hashes": [(2, rt)], "leaves": [(0, lt)]}]})
+    # seeded C35-c (an exception type outside the rollback clause, raised for a negative key after earlier entries of
+    # the batch were written): forged node, then -1; forged leaf again; genuine request
+    res.append({"n": 2, "T": ["a0", "a1"],
+                "calls": [{"prio": full(3), "hashes": [(0, g2[0])], "leaves": []},
+                          {"prio": full(3), "hashes": [(1, "a1001"), (-1, "a1396")], "leaves": []},
+                          {"prio": full(3), "hashes": [], "leaves": [(0, "a1001")]},
+                          {"prio": full(3), "hashes": [(2, g2[2])], "leaves": [(0, g2[1])]}]})
     return res
 
 
@@ -857,10 +882,15 @@ def run(ctx):
         out = run_batch(ctx, "replayed set_hashes history", [case])
         ctx.sample({"case": case, "impl": out[0][:300]})
         return
+    # 1. fixed corpus (before anything seeded)
+    cp = corpus()
+    run_batch(ctx, "set_hashes history (corpus of known mechanisms)", cp)
+    ctx.count("corpus-histories", len(cp))
+    if os.environ.get("VERIF_CORPUS_ONLY") == "1":
+        ctx.note("VERIF_CORPUS_ONLY=1: only the fixed corpus was run")
+        return
     small_functions(ctx)
     validate_cases(ctx)
-    # 1. fixed corpus
-    out = run_batch(ctx, "set_hashes history (corpus of known corners)", corpus())
     # 2. exhaustive small scope
     thorough = ctx.tier == "thorough"
     batch = []
